@@ -140,7 +140,26 @@ int main(int argc, char** argv) {
         gen.setPartner(A, r.chance(80) ? 55 : 0);
         GGeom B;
         int mode = (int) r.below(100);
-        if (mode < 4) B = A;
+        if (r.chance(4)) {
+            // a mixed-dimension collection (polygon + line + maybe a point) and a partner lying entirely on its LOWER-dimensional part:
+            // points on the line element / equal to the point element, or a chain along the line — the situation in which nothing but the
+            // dimension-based defaults of the engine can supply the entries for the exterior of the partner
+            GGeom P = gen.geom(2, false, false), L = gen.geom(1, false, false);
+            GGeom M; M.container = 2;
+            for (auto& e : P.elems) M.elems.push_back(e);
+            for (auto& e : L.elems) M.elems.push_back(e);
+            IPt lone{r.range(0, gen.span), r.range(0, gen.span)};
+            bool hasLone = r.chance(50);
+            if (hasLone) { GElem pe; pe.kind = 0; pe.rings.push_back({lone}); M.elems.push_back(pe); }
+            if (r.chance(50)) std::reverse(M.elems.begin(), M.elems.end());
+            gen.setPartner(L, 100);
+            std::vector<IPt> cand = gen.pool; if (hasLone) cand.push_back(lone);
+            GGeom Q;
+            if (!cand.empty() && r.chance(70)) { int np = r.range(1, 3); Q.container = np == 1 && r.chance(50) ? 0 : 1;
+                for (int q = 0; q < np; q++) { GElem pe; pe.kind = 0; pe.rings.push_back({cand[r.below(cand.size())]}); Q.elems.push_back(pe); } }
+            else { int keep = gen.walkPct; gen.walkPct = 100; Q = gen.geom(1, r.chance(30), false); gen.walkPct = keep; }
+            A = M; B = Q; out.count("partner_on_lower_dim_part_of_mixed_collection"); }
+        else if (mode < 4) B = A;
         else if (mode < 14 && gen.holeSwallower(A, B)) {}
         else if (mode < 26) B = gen.partialCover(A, true);
         else { if (mode < 36) gen.setPartnerInterior(A); B = gen.geom(3, true, true); }
